@@ -61,6 +61,17 @@ CHECKS['C12'] = dict(
     note='the top-level get_info catch-all is covered with the container (C01/C15); correspondence is sampled.',
     design='§5 C12')
 
+CHECKS['C01'] = dict(
+    technique='Lean 4 theorems chain_inverse / decrypt_inverse / blocks_roundtrip / read_write / bad_magic_rejected / bad_extension_rejected + kernel-checked facts (magic, keys, extensions) + independent container writer vs the real reader and the model',
+    text='C01.read_write: for every block permutation (E,D) with D(E b)=b, every inflate inverting the compressor, every block list (empty blocks as None), prefix and plaintext block list, reading the written file returns exactly game, first block, further blocks in order and the stream; the XOR chain is inverted for any number of blocks incl. all-zero ones; wrong magic / unknown extension give ValueError. Tied to ReplayReader by an independent writer (own keys, Blowfish encrypt, zlib levels/strategies, non-ASCII JSON, empty blocks), all stream lengths mod 8 per key, malformed files, raw dump, re-wrapped recordings; the model reads the same files with the ECB layer supplied per block.',
+    note='Blowfish (Cryptodome), zlib and json are external parameters of the theorem (assumed inverse pairs); correspondence is sampled except for the length-mod-8 enumeration.',
+    design='§5 C01')
+CHECKS['C11'] = dict(
+    technique='Lean 4 theorems resolve_spec / resolve_mem / defs_ctrl_same / unsupported_refused / missing_defs_refused / table_switch + version strings wrapped into containers and parsed in both modes, observed player compared with the model and the directory-listing rule',
+    text='C11 theorems: resolution picks the 4-component version if bundled, else the 3-component one, else refuses, and only ever a bundled name; definitions and controller coincide whenever the bundled sets agree on the two candidates (evaluated on the tree each run); the 12.6.0 table switch for every build number. Tied to ReplayParser/ReplayPlayer by generated version strings in the three formats wrapped into real containers; the constructed player (controller module, definitions directory, packet table) and the strict/lenient refusal are observed.',
+    note='importlib and packaging.version are external; the bundled sets are read from the tree by the harness (directory listing + import attempts).',
+    design='§5 C11')
+
 PENDING_REASON = 'check not built yet in this revision (planned: see DESIGN.md §5); not claimed until its theorem + correspondence run on the unchanged tree'
 
 
